@@ -453,7 +453,8 @@ async fn run_op(sh: &Shared, client: usize, op: Op) {
         }
         InsertKind::PublicDoesNotBelongToPrivate => {
           let (_, other_x) = harness_private_jwk(&mut sh.harness_keygen.borrow_mut());
-          priv_json["x"] = other_x.into();
+          // (sometimes in a spelling that a strict base64url decoder refuses: still not the public key of `d`)
+          priv_json["x"] = if ctx::choose(3) == 0 { format!("{other_x}=") } else { other_x }.into();
         }
         InsertKind::KtyDisagreesWithMembers => {
           priv_json["kty"] = ["RSA", "EC", "oct"][ctx::choose(3)].into();
